@@ -167,7 +167,8 @@ C12_NoRedundantData(n, built) ==
 ---------------------------------------------------------------------------
 (* C13  ranks                                                               *)
 C13_Ranks(n, ranks, ue) ==
-  Len(ranks) = n /\ \A f \in 1..n : ranks[f] = LongestChain(n, PairsOfSeq(ue))[f]
+  LET lc == LongestChain(n, PairsOfSeq(ue)) IN
+  Len(ranks) = n /\ \A f \in 1..n : ranks[f] = lc[f]
 
 ---------------------------------------------------------------------------
 (* C14  sequential iteration                                                *)
